@@ -396,6 +396,37 @@ def rule_shared_job_retired(ctx):
     ctx.check(bool(aw) and all("asyncio.shield(" in x for x in aw), rp.fq, "a waiter shields the shared future", f"awaits {aw}: cancelling one waiting request cancels the job for all of them", "asyncio.shield")
 
 
+def rule_waits_end_at_shutdown(ctx):
+    """R-C16-10: a request handler that waits for an event also waits for the stop event.
+
+    A call that is waiting when the director shuts down must still be answered (and its connection closed), else
+    the client hangs and SocketRPCServer.serve never returns.  Every blocking wait in DirectorHandler is therefore a
+    wait for 'the event or stop'.
+    """
+    cls = [fi for fi in ctx.prog.module("director").all_funcs.values() if fi.qualname.startswith("DirectorHandler.")]
+    n = 0
+    for fi in cls:
+        for a in ast.walk(fi.node):
+            if not isinstance(a, ast.Await) or not isinstance(a.value, ast.Call):
+                continue
+            c = a.value
+            nm = callee_name(c)
+            if nm == "wait" and isinstance(c.func, ast.Attribute) and not c.args:
+                n += 1
+                ctx.bad(fi.fq, f"`{ast.unparse(a)}` also ends when the director stops", "a bare Event.wait() in a request handler: a shutdown during the wait leaves the call unanswered and the server waiting for its connection", where=ctx.where_of(fi, a))
+            elif nm == "wait_for_any_event":
+                n += 1
+                args = [ast.unparse(x) for x in c.args]
+                ok = any(x.endswith("stop_event") for x in args)
+                if not ok and len(c.args) == 1 and isinstance(c.args[0], ast.Starred) and isinstance(c.args[0].value, ast.Name):
+                    lst = c.args[0].value.id
+                    inits = [v.value for v in ast.walk(fi.node) if isinstance(v, ast.Assign) and any(isinstance(t, ast.Name) and t.id == lst for t in v.targets)]
+                    ok = any(isinstance(i, (ast.List, ast.Tuple)) and any(ast.unparse(e).endswith("stop_event") for e in i.elts) for i in inits)
+                ctx.check(ok, fi.fq, f"`{ast.unparse(c)[:70]}` includes the stop event", "the wait does not end at shutdown: the waiting call is never answered and SocketRPCServer.serve never returns", "stop_event among the awaited events", where=ctx.where_of(fi, a))
+    if n < 3:
+        raise AnalysisError(f"only {n} blocking waits found in DirectorHandler (3 confirmed by hand)")
+
+
 RULES = [
     Rule("R-C16-1", "exposure gate", rule_exposure, min_instances=25),
     Rule("R-C16-2", "id pairing by data flow", rule_id_pairing, min_instances=11),
@@ -405,10 +436,13 @@ RULES = [
     Rule("R-C16-6", "peers cannot wedge the server", rule_peers, min_instances=5),
     Rule("R-C16-8", "replies may be fragmented; connection state is per connection", rule_fragmentation, min_instances=5),
     Rule("R-C16-9", "a shared hash job is retired however its task ends", rule_shared_job_retired, min_instances=7),
+    Rule("R-C16-10", "waiting handlers are released at shutdown", rule_waits_end_at_shutdown, min_instances=3),
     Rule("R-C16-7", "pending futures are completed only when not cancelled", rule_future_typestate, min_instances=4),
 ]
 
 MUTANTS = [
+    Mutant("end-of-phase-wait-ignores-stop", "director.py", in_function("DirectorHandler._wait_for_end_build_phase", lambda t: t.replace("        events = [self.stop_event]\n        if self.watcher is not None:\n            events.append(self.watcher.busy_watching)\n        await wait_for_any_event(*events)\n", "        event = self.stop_event if self.watcher is None else self.watcher.busy_watching\n        await event.wait()\n", 1) if "events = [self.stop_event]" in t else None), ("R-C16-10",)),
+    Mutant("change-wait-ignores-stop", "director.py", in_function("DirectorHandler._wait_for_change", replace_once("await wait_for_any_event(event, self.stop_event)", "await wait_for_any_event(event)")), ("R-C16-10",)),
     Mutant("hash-job-registered-not-queued", "hash_queue.py", in_function("HashQueue.submit", replace_once("        self.queue.put_nowait(job)\n", "")), ("R-C16-9",)),
     Mutant("shutdown-leaves-queued-futures", "hash_queue.py", in_function("HashQueue.shutdown", replace_once("            job.future.cancel()\n", "            pass\n")), ("R-C16-9",)),
     Mutant("cancelled-hash-task-leaves-zombie", "executor.py", in_function("Executor.run_hash_job", replace_once("            if not hash_job.future.done():\n                hash_job.future.cancel()\n", "")), ("R-C16-9",)),
